@@ -164,6 +164,13 @@ def run(F, R, tier):
                     if any((v or "").endswith("FileHandle::Reader") for v in H.pat_variants(a["pat"])):
                         payload |= {y["id"] for y in H.walk(a["pat"]) if y.get("k") == "bind"}
         out = set()
+        # `let reader = match handle.as_ref() { FileHandle::Reader(r) => r, .. => return .. }`: the payload under another name
+        for _ in range(3):
+            for st in H.walk(b_):
+                if st.get("k") == "let" and st.get("pat", {}).get("k") == "bind" and st.get("init") is not None and st["pat"]["id"] not in payload:
+                    leaves = H.value_leaves(st["init"])
+                    if leaves and all(H.local_id(H.strip(x)) in payload for x in leaves):
+                        payload.add(st["pat"]["id"])
         for st in H.walk(b_):
             if st.get("k") == "let" and st.get("pat", {}).get("k") == "bind" and st.get("init") is not None:
                 i_ = H.strip(st["init"]) if st["init"].get("k") != "mcall" else st["init"]
